@@ -1361,7 +1361,7 @@ func (fg *FnGen) applyCallback(cb *Val, name string, pos token.Pos) {
 		return
 	}
 	fg.note("callback passed to " + name + ": simple local closure, only its captured variables are havoced")
-	for _, b := range mc.Bindings {
+	for bi, b := range mc.Bindings {
 		bv := fg.val(b)
 		// the captured cell
 		cellT := derefType(bv.T)
@@ -1377,6 +1377,11 @@ func (fg *FnGen) applyCallback(cb *Val, name string, pos token.Pos) {
 				fg.havocEntry(modEntry{comp: comp, elem: true, arr: cell.L[0]}, pos)
 			}
 		}
+		// the variable itself changes only if the closure assigns it (a simple closure stores only to captured
+		// variables and to elements of captured slices)
+		if !closureAssigns(mc.Fn.(*ssa.Function), bi) {
+			continue
+		}
 		fg.havocReachable(bv, pos)
 		if pfx, ok := fg.privateRefs[bv.L[0].S]; ok {
 			for _, comp := range append([]string{}, fg.compOrder...) {
@@ -1386,6 +1391,29 @@ func (fg *FnGen) applyCallback(cb *Val, name string, pos token.Pos) {
 			}
 		}
 	}
+}
+
+// closureAssigns: the closure stores directly to its i-th captured variable.
+func closureAssigns(fn *ssa.Function, i int) bool {
+	if i >= len(fn.FreeVars) {
+		return true
+	}
+	fv := fn.FreeVars[i]
+	if fv.Referrers() == nil {
+		return false
+	}
+	for _, r := range *fv.Referrers() {
+		switch x := r.(type) {
+		case *ssa.Store:
+			if x.Addr == ssa.Value(fv) {
+				return true
+			}
+		case *ssa.UnOp, *ssa.DebugRef:
+		default:
+			return true // address used in another way (field of a captured struct, nested closure...): assume assigned
+		}
+	}
+	return false
 }
 
 // closureIsSimple: stores only to captured variables or elements of captured slices; no calls except
